@@ -31,9 +31,9 @@ def br_candidates(s):
     from urllib.parse import _check_bracketed_host
     out = []
     opens = [i for i, c in enumerate(s) if c == "["]
-    closes = [i for i, c in enumerate(s) if c == "]"]
     for i in opens[:6]:
-        for j in [j for j in closes if j > i][:6]:
+        ends = [j for j in range(i + 1, len(s)) if s[j] in "]/?#"][:8] + [len(s)]
+        for j in ends:
             try:
                 _check_bracketed_host(s[i + 1:j])
                 out.append(rh(s[i + 1:j]))
